@@ -271,11 +271,36 @@ def run(ctx, V):
                                      par=par, pcap=pcap, cont=r.get("cont", False), chosen=[list(ch) for _e, ch in r["trace"]]),
                            "model replay of the recorded trace; theorems walk_par_safety / walk_par_terminal",
                            dict(outcome=r["outcome"], callbacks=r["cb"][:12], why=why), bool(why))
+    # search for a failing input: a walk whose trace the model does not accept but whose outcome still
+    # satisfied the statement is re-run on the same pyramid under many more schedules, and on full pyramids
+    n_search = 0
+    suspects = [i for i in sorted(bad) if not property_fails(cases[i], results[i], corr_C13.observe(*cases[i][:5])["walk"])]
+    if suspects and not any(property_fails(cases[i], results[i], corr_C13.observe(*cases[i][:5])["walk"]) for i in bad):
+        tried = [cases[i] for i in suspects[:3]] + [(0, 2, (), (0, 0, 0), False, 3, 4), (1, 2, (), (0, 0, 0), False, 2, 2)]
+        found = False
+        for case in tried:
+            serial = corr_C13.observe(*case[:5])["walk"]
+            for t in range(60 if quick else 300):
+                srng = common.rng_for(rng.randrange(1 << 30), "C01search")
+                r = run_walk(case, make_chooser(srng, srng.choice(("uniform", "uniform", "slow_w0")), 2000))
+                n_search += 1
+                why = property_fails(case, r, serial)
+                if why:
+                    kind, depth, table, apex, sub, par, pcap = case
+                    V.disagreement("C01 predicate on implementation (found by searching schedules of a walk the model rejects)",
+                                   dict(kind=kind, depth=depth, table=[list(p) for p in table], apex=list(apex), sub=sub,
+                                        par=par, pcap=pcap, cont=False, chosen=[list(ch) for _e, ch in r["trace"]]),
+                                   "each live parent once, after all its live children",
+                                   dict(outcome=r["outcome"], callbacks=r["cb"][:16], why=why), True)
+                    found = True
+                    break
+            if found:
+                break
     n_fork = real_fork_runs(rng, 4 if quick else 30, V)
     samples = [dict(pyramid=[c[0], c[1], [list(p) for p in c[2]][:10], list(c[3]), c[4]], par=c[5], pcap=c[6],
                     steps=len(r["trace"]), callbacks=len(r["cb"])) for c, r in list(zip(cases, results))[:3]]
     return dict(evaluations=len(cases) + n_fork, distinct_nontrivial=len(nontrivial),
-                traces_validated_against_impl=len(terms), real_fork_runs=n_fork,
+                traces_validated_against_impl=len(terms), real_fork_runs=n_fork, schedules_searched_after_a_disagreement=n_search,
                 walks_with_lock_contention=sum(1 for r in results if r.get("cont")),
                 contended_empty_exceptions_taken=sum(1 for r in results for _e, ch in r["trace"] if ch[0] == "CTimeout"),
                 scheduler_steps=sum(len(r["trace"]) for r in results),
